@@ -16,6 +16,8 @@ def obligations(tier):
                              desc="as above, then cbor_load(output) consumes all bytes and yields an equal tree, and serializing that tree gives identical bytes (symbolic int/tag arguments assumed minimal for their width so that output heads are concrete)")
     if tier == "thorough":
         o += tc.tree_obligations("serialize_exact", fam, {"P_SER": 1}, variant="ndbg", funcs=F, desc="NDEBUG build")
+    o += tc.large_obligations("serialize_exact_large", {"P_SER": 1}, "tree", funcs=F, desc="large shapes: serialize output == reference encoding byte for byte")
+    o += tc.large_obligations("roundtrip_large", {"P_SER": 1, "P_RT": 1}, "tree", funcs=F, select=lambda s: len(s["outcome"].nodes) <= 60,  desc="large shapes: reload consumes all bytes, equal tree, identical re-serialization")
     return o
 
 
